@@ -1,5 +1,5 @@
 (* C18 — blocklist semantics are exact (tree, CIDR, reload). *)
-From RainV Require Import Lib Stree StreeProofs.
+From RainV Require Import Lib Stree StreeProofs AddrList AddrListProofs.
 
 (* for every list of closed uint32 ranges (overlapping, nested, adjacent, duplicates, single
    points, the extremes 0 and 2^32-1) the tree contains v exactly when some range does *)
@@ -21,3 +21,27 @@ Print Assumptions C18_blocked_exact.
 Theorem C18_reload_atomic : forall b ls, load ls = None -> fst (reload b ls) = b.
 Proof. exact reload_atomic. Qed.
 Print Assumptions C18_reload_atomic.
+
+(* the queue of candidate addresses is a set keyed by priority whose members all passed the
+   push-time filter, in every state reachable by any sequence of push / pop / reset *)
+Theorem C18_addrlist_invariant : forall c ops, Inv c (fold_left (astep c) ops al_init).
+Proof. exact reachable_inv. Qed.
+Print Assumptions C18_addrlist_invariant.
+
+Theorem C18_addrlist_bounded : forall c s src addrs, 0 <= maxItems c ->
+  zlen (items (push c s src addrs)) <= maxItems c.
+Proof. exact push_bounded. Qed.
+Print Assumptions C18_addrlist_bounded.
+
+Theorem C18_addrlist_pop_max : forall c s s' e, Inv c s -> pop s = (s', Some e) ->
+  In e (items s) /\ (forall x, In x (items s) -> e_prio x <= e_prio e) /\
+  (forall x, In x (items s') <-> In x (items s) /\ x <> e) /\ unfiltered c e.
+Proof. exact pop_spec. Qed.
+Print Assumptions C18_addrlist_pop_max.
+
+(* no address handed out for dialling has port 0, is the client's own loopback address or its
+   external IP, or lies in the blocklist loaded when it was pushed *)
+Theorem C18_popped_never_filtered : forall c ops s' e,
+  pop (fold_left (astep c) ops al_init) = (s', Some e) -> filtered c (e_ip e) (e_port e) = false.
+Proof. exact popped_never_filtered. Qed.
+Print Assumptions C18_popped_never_filtered.
